@@ -1,7 +1,7 @@
 """C02 - message codec byte-exact; class dispatch; AVP search.
 
-E1 against refcodec: header field space, every registered code x R bit, 1,111 bodies over a
-10-AVP alphabet, whole-dictionary messages, nesting chains, a 64 KiB message, and every
+E1 against refcodec: header field space, every registered code x R bit, 1,885 bodies over a
+12-AVP alphabet, whole-dictionary messages, nesting chains, a 64 KiB message, and every
 ordering of 1..3 distinct search paths on freshly decoded messages.
 """
 from __future__ import annotations
@@ -39,6 +39,8 @@ def body_alphabet():
         rc.enc_avp(1032, b"same-code-no-vendor", 0, 0),     # 7 same code, vendor 0
         rc.enc_avp(1032, b"\x00\x00\x00\x07", P, 193),      # 8 same code, another vendor
         rc.addr(257, "2001:db8::1"),                        # 9 address
+        rc.enc_avp(1, b"", M, 0),                           # 10 empty payload: an AVP of exactly 8 bytes
+        rc.grouped(456, [rc.u32(432, 1), rc.grouped(437, [])]),   # 11 group whose last child is an empty 8-byte group
     ]
 
 
@@ -173,6 +175,33 @@ def work_dispatch(_):
             def __post_init__(self):
                 self.header.command_code = self.code
                 super().__post_init__()
+        # decoded while still unknown, then registered, then decoded again (any dispatch cache must follow)
+        pre_wire = rc.enc_msg(8_123_456, 0x80, 0, 1, 2, [rc.u32(268, 1)])
+        for fl in (0x80, 0x00):
+            n += 1
+            pre = Message.from_bytes(rc.enc_msg(8_123_456, fl, 0, 1, 2, [rc.u32(268, 1)]))
+            if type(pre) is not UndefinedMessage:
+                out.append(Violation("dispatch:unknown-code-not-generic", f"8123456: {type(pre).__name__}", {"code": 8_123_456}))
+        commands.register(VerifCommand)
+        for fl in (0x80, 0x00):
+            n += 1
+            post = Message.from_bytes(rc.enc_msg(8_123_456, fl, 0, 1, 2, [rc.u32(268, 1)]))
+            if type(post) is not VerifCommand:
+                out.append(Violation("dispatch:run-time-registration-not-honoured-after-earlier-decode",
+                                     f"{type(post).__name__} after register()", {"code": 8_123_456}))
+
+        class VerifCommand2(DefinedMessage):
+            code = 8_123_456
+            name = "Verif-Command-2"
+
+            def __post_init__(self):
+                self.header.command_code = self.code
+                super().__post_init__()
+        commands.register(VerifCommand2)
+        n += 1
+        post = Message.from_bytes(pre_wire)
+        if type(post) is not VerifCommand2:
+            out.append(Violation("dispatch:re-registration-not-honoured", f"{type(post).__name__}", {"code": 8_123_456}))
         commands.register(VerifCommand)
         names = {}
         for code, cls in sorted(commands.all_commands.items()):
@@ -347,7 +376,7 @@ def run(tier):
     rep.cov.update({"evaluations": total, "distinct_nontrivial": total, "exhaustive": True,
                     "rule": "header: every field over its boundary set alone (all 256 flag octets, every registered code, boundary ids) + "
                             "3^6 product; dispatch: every registered code (+1 run-time registered, unknown codes) x 6 flag octets; bodies: all "
-                            "1,111 sequences of length 0..3 over a 10-AVP alphabet x {unknown code, typed code plain_msg, untyped code}; the "
+                            "1,111 sequences of length 0..3 over a 12-AVP alphabet x {unknown code, typed code plain_msg, untyped code}; the "
                             "whole dictionary in 40-AVP messages, chains to depth 6, a 64 KiB message; search: every ordering of 1..3 distinct "
                             "paths from the induced path alphabet (3-permutations: all when <= 9 paths, else a fixed fifth) on a fresh decode"})
     rep.assumptions += ["AVP order identity and byte-exact re-encoding are required of generic decodes only (typed classes document regrouping)"]
